@@ -27,10 +27,12 @@ RULES = {
 def make(repo):
     reg = PinvRegistry()
     models = Models(hooks={'linalg.pinv': reg.hook, 'linalg.lstsq': reg.lstsq_hook, 'linalg.inv': reg.hook})
-    I = Interp(repo, models)
+    from ..pipeline import finite_values_oracle
+    I = Interp(repo, models, branch_oracle=finite_values_oracle)      # the symbolic parameters stand for finite numbers
     models.bind(I)
     ndarr.POSITIVE_ATOMS.clear()
     ndarr.POSITIVE_ATOMS.update(ASSUMED_POSITIVE)
+    ndarr.POSITIVE_ATOMS.add('s')             # the second step ratio of the reuse scenarios: a ratio has modulus above 1
     return I, models, reg
 
 
